@@ -161,6 +161,29 @@ CLAIMED = {
         note="np.linalg.solve is an oracle (residual monitored); the FD convergence RATE is not proved (monitor requires decrease with M): partial. "
              "Defect fixed in /repo edf9260 (FD branch used dT/dchi for dv/dchi).",
         technique="Lean 4 proof over regenerated formulas + data-flow model + correspondence + monitors", ref="4/C12"),
+    "C11": dict(
+        text="Lean 4 theorems (Props.C11) about a model of tracePhase's bookkeeping: a step enters the table only while the smallest Hessian "
+             "eigenvalue is positive and before any break (exact prefix characterisation); table strictly increasing; possible range = "
+             "[min+2dT, max-2dT]; flags <=> table ends short of the requested end; reaching the bound => unflagged; stopping at a spinodal "
+             "=> flagged and nothing tabulated beyond; exact error conditions; critical-temperature loop: the bracket handed to brentq has a "
+             "sign change and, if the high-T phase is favoured at TMax, the low-T phase is favoured below it. The model is driven with the "
+             "step records logged from the REAL tracer (RK45 subclass substituted from outside) and must reproduce table, range and flags "
+             "exactly; every tabulated point is judged with closed-form gradient/Hessian/branch, interpolation accuracy, coverage, Tc.",
+        note="'same continuous branch' and accuracy are numerical (closed-form comparison): partial. Known finding C11-H (direction of the Tc "
+             "crossing unchecked). Quirk proved: a single accepted downward step is discarded.",
+        technique="Lean 4 proof over bookkeeping model + exact correspondence on logged step records + closed-form judgement", ref="4/C11"),
+    "C01": dict(
+        text="Lean 4 theorems (Props.C01) about a model of solveWall's decision logic and wallPressure's convergence loop: success with a "
+             "velocity => final bracket has pMin<=0<=pMax with vMin*2^k<=v<=vMax, v is brentq's converged answer, all five failure flags of "
+             "the call AT v are good, type = detonation iff v>vJ; runaway <=> pMax<0 (no velocity); failure <=> ERROR; result is a function "
+             "of the observations only; loop: converged => last step met the tolerance, multiplier antitone, iteration count NOT bounded by "
+             "maxIterations (finding). The model is compared with the REAL solveWall and the REAL wallPressure loop on scripted pressure "
+             "functions/streams (stubs injected from outside, final flags poisoned beforehand); real LTE end-to-end runs check the pressure "
+             "sign change within 3*errTol, the window, that returned fields are those of a fresh evaluation at v, and bitwise repeatability "
+             "after interleaved LTE/matching/pressure calls and poisoned mutable state.",
+        note="brentq and the inner pressure iteration are oracles (convergence not proved): partial; out-of-equilibrium runs need collision "
+             "files and are covered at the Boltzmann level (C12-C14), end-to-end runs are LTE.",
+        technique="Lean 4 proof over decision model + scripted-stub correspondence + end-to-end history monitor", ref="4/C01"),
 }
 
 NOT_YET = "check not built yet in this round (design in DESIGN.md section 4); listed here until its Lean module and harness are committed"
